@@ -28,6 +28,7 @@ type UCIGenCfg struct {
 	Hash       bool    `json:"hash"`
 	SweepStop  int     `json:"sweep_stop"`          // >0: in every search SweepCmd is sent exactly when the search is parked before this poll (systematic sweep)
 	SweepCmd   string  `json:"sweep_cmd,omitempty"` // stop (default) | quit | eof | isready | ponderhit
+	NoClock    bool    `json:"no_clock,omitempty"`  // only requests whose outcome cannot depend on the clock (driver twins)
 }
 
 func drawUCIGenCfg(rng *rand.Rand, stub bool) UCIGenCfg {
@@ -156,6 +157,14 @@ func (g *uciGen) goLine() (line string, selfEnds bool, ponder bool) {
 	}
 	if g.cfg.Ponder && r.IntN(3) == 0 {
 		kind = 8
+	}
+	if g.cfg.NoClock {
+		switch kind {
+		case 5, 6, 7:
+			kind = r.IntN(5)
+		case 8:
+			return fmt.Sprintf("go ponder depth %d", 1+r.IntN(5)), false, true
+		}
 	}
 	switch kind {
 	case 0, 1, 2:
